@@ -62,8 +62,8 @@ type c10Sym struct {
 
 func (s c10Sym) String() string { return s.Obj + "." + s.Op }
 
-var c10Disturbers = []c10Sym{{"S1", "AddType-refused"}, {"S3", "Check"}, {"S4", "Check"}, {"S5", "Check"}, {"S3", "GetAST"}, {"S1", "Example"}, {"S6", "OpenAPI"}, {"S1", "Dereference"},
-	{"D2", "Check"}, {"D4", "Len"}, {"R1", "Example"}, {"E1", "Values"}, {"G", "1e2"}, {"S8", "Example+write"}}
+var c10Disturbers = []c10Sym{{"L", "{\n\t\"enabled\": tr"}, {"L", `"ab`}, {"LE", `[1, "a`}, {"S1", "AddType-refused"}, {"S3", "Check"}, {"S4", "Check"}, {"S5", "Check"}, {"S1", "Example"}, {"S6", "OpenAPI"}, 
+	{"D2", "Check"}, {"R1", "Example"}, {"G", "1e2"}, {"S8", "Example+write"}}
 
 func c10Alphabet() []c10Sym {
 	var out []c10Sym
@@ -97,6 +97,14 @@ func c10Alphabet() []c10Sym {
 	out = append(out, c10Sym{"E1", "Values+write"}, c10Sym{"S1", "Used+write"})
 	for _, op := range []string{"Check", "Example", "GetAST", "Used"} {
 		out = append(out, c10Sym{"S9", op})
+	}
+	// lengths of fresh texts: some break off inside a literal, some are bare numbers
+	// that end with the text (whatever a pooled length scanner remembers shows there)
+	for _, t := range []string{"{\n\t\"enabled\": tr", `"ab`, `-`, `@a |`, `42`, `0`, "1 // {min: 0}", "{}\nGET /x"} {
+		out = append(out, c10Sym{"L", t})
+	}
+	for _, t := range []string{`[1, "a`, `[tr`, `[1]`, `[1] x`} {
+		out = append(out, c10Sym{"LE", t})
 	}
 	// registrations that are refused (a name already taken, an invalid name) must leave
 	// the object as it was
@@ -225,6 +233,12 @@ func c10Exec(objs *c10Objects, sym c10Sym) (res c10Result) {
 				}
 				set(func() string { return snap })
 			}
+		case "L": // Len() of a fresh schema object over the text (each time a new object)
+			l, err := jschema.New("len", sym.Op).Len()
+			set(func() string { return fmt.Sprint(l) + "|" + errSnap(err) })
+		case "LE": // the same for an enum rule
+			l, err := enum.New("len", sym.Op).Len()
+			set(func() string { return fmt.Sprint(l) + "|" + errSnap(err) })
 		case "G":
 			t, err := schema.GuessSchemaType([]byte(sym.Op))
 			set(func() string { return string(t) + "|" + errSnap(err) })
